@@ -50,15 +50,22 @@ class C20(Prop):
                     else:
                         ents[r.choice(["README", "src", "x.txt", "cargo.toml", ".gitignore"])] = r.randint(0, 1)
                 levels.append(sorted(ents.items()))
-            cases.append({"id": i, "levels": [[list(e) for e in l] for l in levels],
-                          "start": r.randint(0, depth - 1)})
+            case = {"id": i, "levels": [[list(e) for e in l] for l in levels], "start": r.randint(0, depth - 1)}
+            k = r.random()
+            if k < 0.12:
+                case["chroot"] = True            # the chain starts at the file system root itself (level 0 is "/")
+            elif k < 0.30 and depth >= 2:
+                case["link"] = r.randint(1, depth - 1)      # that level is a symbolic link to a directory elsewhere
+                case["start"] = r.randint(case["link"], depth - 1)
+            cases.append(case)
         return cases
 
     def correspond(self, tier, seed, deep=False):
         c = Corr()
         c.rule = ("random directory chains of depth 1-5 under a scratch dir; each level gets 0-3 entries drawn from "
                   "the source's marker tables with the right node type, the wrong node type, as a symlink, or a "
-                  "non-marker name; start at any depth. non-trivial = distinct (levels,start) with at least one "
+                  "non-marker name; start at any depth; 12% of the chains start at the file system root itself (run in a chroot), 18% pass through a "
+                  "symbolic link to a directory elsewhere whose parent carries a marker. non-trivial = distinct (levels,start) with at least one "
                   "marker-named entry on the chain. Plus the exhaustive ProjectType classification.")
         r = rng(seed, "c20")
         n = 150 if tier == "quick" else 1500
@@ -74,6 +81,11 @@ class C20(Prop):
             c.errors.append(f"h_codec origins-class failed: {out[-500:]}")
             return c
         rows = cl[0]["class"]
+        skipped = [o for o in obs if "skipped" in o]
+        if skipped:
+            c.extra["skipped_chroot_cases"] = len(skipped)
+            keep = [(cs_, o) for cs_, o in zip(cases, obs) if "skipped" not in o]
+            cases, obs = [k[0] for k in keep], [k[1] for k in keep]
         # ---- model evaluation
         terms, mons = [], []
         for case, o in zip(cases, obs):
@@ -104,6 +116,7 @@ class C20(Prop):
                 ",".join("[" + ",".join(sorted(e["types"])) + "]" for e in o["dirs"]) + "]"
             names = {n for l in case["levels"] for n, _ in l}
             c.count(f"depth={len(case['levels'])}")
+            c.count("chain from the file system root (chroot)" if case.get("chroot") else ("symlinked level" if "link" in case else "plain chain"))
             c.count(f"origins_in_case={sum(1 for x in o['origins'] if len(x) >= len(o['start']) - case['start'])}")
             if names - {"README", "src", "x.txt", "cargo.toml", ".gitignore"}:
                 c.nontrivial.add(json.dumps([case["levels"], case["start"]]))
